@@ -52,6 +52,7 @@ def run(ctx):
                 "tier; text containers with undecodable bytes / unterminated quote / short record; the command line on the hostile CIDs; observable: class of "
                 "whatever escapes; distinct = distinct (CID or data, position, value); non-trivial = every case" % len(HOSTILE))
     ctx.exhaustive = True
+    ctx.level = "fault_enumeration"
     from cutplace import errors, interface, validio, applications
 
     # ---- CID cells -----------------------------------------------------------------------------------------------
